@@ -401,6 +401,8 @@ def run_c11(prop, tier):
 
 
 LOCS = ["", "a", "x" * 212, "y" * 213, "é" * 106 + "z", "sub.jbkc", "café-中文.pack"]
+EQUIV_LOCS = ["packs/data.jbkc", "packs//data.jbkc", "packs/data.jbkc/", "./packs/data.jbkc", "packs/./data.jbkc", "packs/data.jbkc/.",
+              "packs/data.jbkc", "PACKS/data.jbkc", "packs/data.jbkc ", "packs\\data.jbkc", "packs/data.jbkc"]
 
 
 def run_c12(prop, tier):
@@ -439,6 +441,16 @@ def run_c12(prop, tier):
                         target = rng.choice(["d", "c1", "c2", "c3", "unknown"])
                         loc = rng.choice(LOCS)
                         set_location_step(R, rep, w2, entry, vname, mode, target, loc, rng)
+                # a history of strings that name the same path but are different strings (doubled separator, '.', trailing
+                # separator, './' in front): what is read back is the string given, whatever was recorded before
+                work = os.path.join(R.base, "seq")
+                shutil.rmtree(work, ignore_errors=True)
+                shutil.copytree(w.dir, work)
+                w2 = World(work, scn)
+                w2.ident, w2.names, w2.uuid_of = dict(w.ident), dict(w.names), dict(w.uuid_of)
+                target = rng.choice(["c1", "c2", "d"])
+                for loc in EQUIV_LOCS if tier != "quick" else EQUIV_LOCS[:2] + rng.sample(EQUIV_LOCS[2:], 3):
+                    set_location_step(R, rep, w2, entry, vname, mode, target, loc, rng)
         C.log("[%s] container %d done %.0fs (%d steps)" % (prop, ci, time.time() - rep.t0, R.n))
     big_manifests(R, rep, rng, tier)
     R.finish()
@@ -478,7 +490,9 @@ def big_manifests(R, rep, rng, tier):
             steps = [(packs[i]["uuid"], True) for i in targets] + [(te["out"]["directory"], True), ("00000000-0000-4000-8000-000000000001", False)]
             rng.shuffle(steps)
             for uuid, known in steps[:4 if tier == "quick" else 8]:
-                for loc in rng.sample(LOCS, 2 if tier == "quick" else 4):
+                cur = next((pk_["loc"] for pk_ in packs if pk_["uuid"] == uuid), None)
+                near = [rng.choice(["./" + cur, cur + "/", cur + "/."])] if cur else []
+                for loc in near + rng.sample(LOCS, 2 if tier == "quick" else 4):
                     R.k += 1
                     sid = "k%d" % R.k
                     R.cfgs[sid] = {"mode": "synthetic manifest %s" % name, "variant": "container" if in_container else "standalone", "packs": n,
